@@ -1238,7 +1238,7 @@ Example T02a_overused_constant_example :
   /\ plan_imm (oc_plan p) = true.
 Proof. exact oc_partial_example. Qed.
 
-(* missing_context_manager (after repairs 3428d16, 99bac35), one rewrite in one statement list, every run: the same
+(* missing_context_manager (after repairs 2ee0610, 54a5b4a), one rewrite in one statement list, every run: the same
    outcome, and the final state is the same or differs by ONE handle closed (one more EvClose event) *)
 Theorem T02a_mcm_sound : forall b b', mcm1 b = Some b' ->
   forall o st, close_rel (exec_block o st b) (exec_block o st b').
